@@ -10,9 +10,13 @@ tot = det = 0
 print('| property | seeds | detected by the quick check | missed |')
 print('|---|---|---|---|')
 for p, ms in rows.items():
+    # a seed whose demonstration no longer fails on the current tree (a later fix: commit removed the
+    # defect it relied on) is listed but not counted
+    moot = [m['name'] + ' (moot)' for m in ms if not m.get('kept', True)]
+    ms = [m for m in ms if m.get('kept', True)]
     d = [m['name'] for m in ms if m.get('detected')]
     n = [m['name'] for m in ms if not m.get('detected')]
     tot += len(ms); det += len(d)
-    print('| %s | %d | %s | %s |' % (p, len(ms), ', '.join(d) or '-', ', '.join(n) or '-'))
+    print('| %s | %d | %s | %s |' % (p, len(ms), ', '.join(d) or '-', ', '.join(n + moot) or '-'))
 print()
 print('total %d, detected %d' % (tot, det))
